@@ -47,7 +47,7 @@ package resp
 
 // ---- C03: the response-header parser (client side) is panic-free for every buffer content ----
 //@ func parseFirstLine(h, buf) n, err
-//@   props C03
+//@   props C03, C11
 //@   requires h != nil
 //@   modifies h._all, mem
 //@   ensures h.disableNormalizing == old(h.disableNormalizing)
@@ -72,7 +72,7 @@ package resp
 
 // C02: the header scanner runs only after the completeness check succeeded.
 //@ func parse(h, buf) n, err
-//@   props C03, C02
+//@   props C03, C02, C11
 //@   requires h != nil
 //@   modifies *
 //@   ensures h.disableNormalizing == old(h.disableNormalizing)
@@ -84,13 +84,13 @@ package resp
 //@   ensures err == nil ==> 0 <= n && n <= len(buf)
 
 //@ func tryRead(h, r, n) err
-//@   props C03
+//@   props C03, C02, C11
 //@   requires h != nil && r != nil
 //@   modifies *, r.pos, r.avail, r.failed
 //@   ensures h.disableNormalizing == old(h.disableNormalizing)
 
 //@ func ReadHeader(h, r) err
-//@   props C03
+//@   props C03, C02, C11
 //@   requires h != nil && r != nil
 //@   modifies *, r.pos, r.avail, r.failed
 //@   ensures h.disableNormalizing == old(h.disableNormalizing)
